@@ -193,6 +193,15 @@ func (p *cparser) peek() ctok             { return p.toks[p.i] }
 func (p *cparser) next() ctok             { t := p.toks[p.i]; p.i++; return t }
 func (p *cparser) isOp(s string) bool     { t := p.peek(); return t.k == "op" && t.s == s }
 func (p *cparser) isID(s string) bool     { t := p.peek(); return t.k == "id" && t.s == s }
+// isQuant: a quantifier keyword followed by a bound variable (a program variable may itself be
+// called "exists" or "forall": then it is followed by an operator, not a name).
+func (p *cparser) isQuant() bool {
+	if !(p.isID("forall") || p.isID("exists")) {
+		return false
+	}
+	return p.i+1 < len(p.toks) && p.toks[p.i+1].k == "id"
+}
+
 func (p *cparser) expectOp(s string) {
 	if !p.isOp(s) {
 		p.fail("expected %q at %d, got %q", s, p.peek().pos, p.peek().s)
@@ -201,7 +210,7 @@ func (p *cparser) expectOp(s string) {
 }
 
 func (p *cparser) expr() *CE {
-	if p.isID("forall") || p.isID("exists") {
+	if p.isQuant() {
 		kind := p.next().s
 		var vars []string
 		for {
@@ -267,7 +276,7 @@ func (p *cparser) impl() *CE {
 	if p.isOp("==>") || p.isOp("<==>") {
 		op := p.next().s
 		var r *CE
-		if p.isID("forall") || p.isID("exists") {
+		if p.isQuant() {
 			r = p.expr()
 		} else {
 			r = p.impl()
@@ -306,7 +315,7 @@ func (p *cparser) binary(min int) *CE {
 		}
 		p.i++
 		var r *CE
-		if (t.s == "&&" || t.s == "||") && (p.isID("forall") || p.isID("exists")) {
+		if (t.s == "&&" || t.s == "||") && (p.isQuant()) {
 			r = p.expr()
 		} else {
 			r = p.binary(pr + 1)
